@@ -42,7 +42,7 @@ func (g listGenerator) EmitNativeAccessors(w io.Writer) {
 	//    and may additionally incur a memcpy if the maybe for the value type doesn't use pointers internally).
 	doTemplate(`
 		func (n *_{{ .Type | TypeSymbol }}) Lookup(idx int64) {{ .Type.ValueType | TypeSymbol }} {
-			if n.Length() <= idx {
+			if idx < 0 || n.Length() <= idx {
 				return nil
 			}
 			v := &n.x[idx]
@@ -56,7 +56,7 @@ func (g listGenerator) EmitNativeAccessors(w io.Writer) {
 			{{- end}}
 		}
 		func (n *_{{ .Type | TypeSymbol }}) LookupMaybe(idx int64) Maybe{{ .Type.ValueType | TypeSymbol }} {
-			if n.Length() <= idx {
+			if idx < 0 || n.Length() <= idx {
 				return nil
 			}
 			v := &n.x[idx]
@@ -145,7 +145,7 @@ func (g listGenerator) EmitNodeTypeAssertions(w io.Writer) {
 func (g listGenerator) EmitNodeMethodLookupByIndex(w io.Writer) {
 	doTemplate(`
 		func (n {{ .Type | TypeSymbol }}) LookupByIndex(idx int64) (datamodel.Node, error) {
-			if n.Length() <= idx {
+			if idx < 0 || n.Length() <= idx {
 				return nil, datamodel.ErrNotExists{Segment: datamodel.PathSegmentOfInt(idx)}
 			}
 			v := &n.x[idx]
